@@ -44,6 +44,77 @@ type iMap struct {
 type iStruct struct {
 	typ    *types.Named
 	fields map[int]any
+	anon   *types.Struct // a struct type without a name (typ is nil then)
+	val    bool          // a struct value (a copy), not an addressable object
+	zeroed bool          // created by an allocation seen by the interpreter: a field not in fields holds its zero value
+}
+
+func (st *iStruct) structType() *types.Struct {
+	if st.typ != nil {
+		s, _ := st.typ.Underlying().(*types.Struct)
+		return s
+	}
+	return st.anon
+}
+
+// field: the value of field i (its zero value when the object was allocated under the interpreter's eyes and the
+// field never written).
+func (st *iStruct) field(i int) (any, bool) {
+	if v, ok := st.fields[i]; ok && v != nil {
+		return v, true
+	}
+	if _, written := st.fields[i]; !written && st.zeroed {
+		if stt := st.structType(); stt != nil && i >= 0 && i < stt.NumFields() {
+			if z := zeroOf(stt.Field(i).Type(), false); z != nil {
+				return z, true
+			}
+			switch stt.Field(i).Type().Underlying().(type) {
+			case *types.Pointer, *types.Interface, *types.Slice, *types.Map, *types.Signature, *types.Chan:
+				return iNil{}, true
+			}
+		}
+	}
+	return nil, false
+}
+
+// copyVal: the struct value read from (or written into) an object: nested struct values are copied with it.
+func (st *iStruct) copyVal() *iStruct {
+	c := &iStruct{typ: st.typ, anon: st.anon, val: true, zeroed: st.zeroed, fields: make(map[int]any, len(st.fields))}
+	for k, v := range st.fields {
+		if in, ok := v.(*iStruct); ok && in.val {
+			v = in.copyVal()
+		}
+		c.fields[k] = v
+	}
+	return c
+}
+
+// iSym is a value that is not known but has a name: a leaf ("L", "R": the payloads of two operands) or an operation
+// on such values. Operations on them build expressions instead of becoming unknown, so that what a piece of code
+// computes from its inputs can be read off its result.
+type iSym struct {
+	name string      // leaf
+	op   token.Token // operation (x op y, or op x when y is nil)
+	x, y any
+}
+
+func (s iSym) String() string {
+	str := func(v any) string {
+		switch t := v.(type) {
+		case iSym:
+			return t.String()
+		case constant.Value:
+			return t.ExactString()
+		}
+		return "?"
+	}
+	switch {
+	case s.name != "":
+		return s.name
+	case s.y == nil:
+		return s.op.String() + str(s.x)
+	}
+	return "(" + str(s.x) + " " + s.op.String() + " " + str(s.y) + ")"
 }
 
 type iFieldAddr struct {
@@ -91,6 +162,14 @@ type Interp struct {
 	// useGlobals: loads of module package-level variables that are never written after initialisation yield the
 	// value the package initialiser builds (evalGlobals)
 	useGlobals bool
+
+	// branch decides a branch on a named unknown (iSym) condition; without it such a branch ends the evaluation
+	branch func(cond iSym, at *ssa.If) (taken bool, ok bool)
+
+	// forgetObjects: an abstract object handed to code that is not evaluated loses what is known about its fields
+	forgetObjects bool
+
+	effReads []ssa.Instruction // where values read through a local copy were really read (set by load hooks)
 
 	dirty   bool
 	stopped bool
@@ -255,6 +334,10 @@ func (ip *Interp) runClosure(fn *ssa.Function, args []any, binds []any, depth in
 							env[x] = constant.MakeBool(!constant.BoolVal(c))
 							continue
 						}
+						if sym, isSym := v.(iSym); isSym {
+							env[x] = iSym{op: token.NOT, x: sym}
+							continue
+						}
 					}
 					delete(env, x)
 				case token.SUB:
@@ -263,13 +346,24 @@ func (ip *Interp) runClosure(fn *ssa.Function, args []any, binds []any, depth in
 							env[x] = constant.UnaryOp(token.SUB, c, 0)
 							continue
 						}
+						if sym, isSym := v.(iSym); isSym {
+							env[x] = iSym{op: token.SUB, x: sym}
+							continue
+						}
 					}
 					delete(env, x)
 				case token.MUL:
 					// a load
 					if a, ok := get(x.X); ok {
+						if st, isSt := a.(*iStruct); isSt && !st.val {
+							env[x] = st.copyVal() // the struct value held by the object
+							continue
+						}
 						if fa, isFA := a.(iFieldAddr); isFA {
-							if fv, have := fa.st.fields[fa.field]; have && fv != nil {
+							if fv, have := fa.st.field(fa.field); have {
+								if in, isIn := fv.(*iStruct); isIn && in.val {
+									fv = in.copyVal()
+								}
 								env[x] = fv
 								continue
 							}
@@ -318,9 +412,13 @@ func (ip *Interp) runClosure(fn *ssa.Function, args []any, binds []any, depth in
 			case *ssa.Alloc:
 				if nt, isNamed := x.Type().Underlying().(*types.Pointer).Elem().(*types.Named); isNamed {
 					if _, isSt := nt.Underlying().(*types.Struct); isSt {
-						env[x] = &iStruct{typ: nt, fields: map[int]any{}}
+						env[x] = &iStruct{typ: nt, fields: map[int]any{}, zeroed: true}
 						continue
 					}
+				}
+				if ast, isSt := x.Type().Underlying().(*types.Pointer).Elem().(*types.Struct); isSt {
+					env[x] = &iStruct{anon: ast, fields: map[int]any{}, zeroed: true}
+					continue
 				}
 				n := 1
 				if at, isArr := x.Type().Underlying().(*types.Pointer).Elem().Underlying().(*types.Array); isArr {
@@ -366,8 +464,21 @@ func (ip *Interp) runClosure(fn *ssa.Function, args []any, binds []any, depth in
 				delete(env, x)
 			case *ssa.Store:
 				if a, ok := get(x.Addr); ok {
+					if dst, isSt := a.(*iStruct); isSt && !dst.val {
+						if v, vok := get(x.Val); vok {
+							if src, isSrc := v.(*iStruct); isSrc && src.val {
+								dst.fields, dst.zeroed = src.copyVal().fields, src.zeroed
+								continue
+							}
+						}
+						dst.fields, dst.zeroed = map[int]any{}, false // an unknown value: nothing is known about the fields any more
+						continue
+					}
 					if fa, isFA := a.(iFieldAddr); isFA {
 						v, _ := get(x.Val)
+						if src, isSrc := v.(*iStruct); isSrc && src.val {
+							v = src.copyVal()
+						}
 						fa.st.fields[fa.field] = v
 						continue
 					}
@@ -498,7 +609,7 @@ func (ip *Interp) runClosure(fn *ssa.Function, args []any, binds []any, depth in
 							if nt, isNamed := x.X.Type().Underlying().(*types.Pointer).Elem().(*types.Named); isNamed {
 								if _, isSt := nt.Underlying().(*types.Struct); isSt {
 									if _, occupied := fa.st.fields[fa.field]; !occupied {
-										inner = &iStruct{typ: nt, fields: map[int]any{}}
+										inner = &iStruct{typ: nt, fields: map[int]any{}, val: true}
 										fa.st.fields[fa.field] = inner
 										have = true
 									}
@@ -549,8 +660,14 @@ func (ip *Interp) runClosure(fn *ssa.Function, args []any, binds []any, depth in
 				holds, known := false, false
 				switch vv := v.(type) {
 				case *iStruct:
+					if vv.typ == nil {
+						break
+					}
 					known = true
-					pt := types.NewPointer(vv.typ)
+					var pt types.Type = types.NewPointer(vv.typ)
+					if vv.val {
+						pt = vv.typ
+					}
 					if types.IsInterface(x.AssertedType) {
 						holds = types.Implements(pt, x.AssertedType.Underlying().(*types.Interface))
 					} else {
@@ -576,11 +693,29 @@ func (ip *Interp) runClosure(fn *ssa.Function, args []any, binds []any, depth in
 					return nil, false
 				}
 				env[x] = v
-			case *ssa.Field, *ssa.Index, *ssa.SliceToArrayPointer, *ssa.MakeChan, *ssa.Select:
+			case *ssa.Field:
+				if v, ok := get(x.X); ok {
+					if st, isSt := v.(*iStruct); isSt {
+						if fv, have := st.field(x.Field); have {
+							env[x] = fv
+							continue
+						}
+					}
+				}
+				delete(env, x)
+			case *ssa.Index, *ssa.SliceToArrayPointer, *ssa.MakeChan, *ssa.Select:
 				delete(env, x.(ssa.Value))
 			case *ssa.DebugRef:
 			case *ssa.Convert:
 				if v, ok := get(x.X); ok {
+					if sym, isSym := v.(iSym); isSym {
+						if types.Identical(x.X.Type().Underlying(), x.Type().Underlying()) {
+							env[x] = sym
+						} else {
+							env[x] = iSym{op: token.TYPE, x: sym, y: constant.MakeString(x.Type().String())}
+						}
+						continue
+					}
 					if c, isC := v.(constant.Value); isC {
 						if bt, isB := x.Type().Underlying().(*types.Basic); isB && c.Kind() == constant.Int && bt.Info()&types.IsInteger != 0 {
 							env[x] = c
@@ -669,7 +804,7 @@ func (ip *Interp) runClosure(fn *ssa.Function, args []any, binds []any, depth in
 					}
 				}
 				if sc0 := x.Call.StaticCallee(); sc0 != nil && len(args) > 0 {
-					if st, isSt := args[0].(*iStruct); isSt && isTextBuffer(st.typ) {
+					if st, isSt := args[0].(*iStruct); isSt && st.typ != nil && isTextBuffer(st.typ) {
 						// bytes.Buffer / strings.Builder: the text written so far (unknown once something unknown is written)
 						mname := sc0.Name()
 						cur, have := st.fields[-1].(constant.Value)
@@ -798,6 +933,12 @@ func (ip *Interp) runClosure(fn *ssa.Function, args []any, binds []any, depth in
 							}
 						case *iMap:
 							av.vals = nil
+						case *iStruct:
+							if !av.val && ip.forgetObjects {
+								av.fields, av.zeroed = map[int]any{}, false
+							}
+						case iFieldAddr:
+							av.st.fields[av.field] = nil
 						}
 					}
 				}
@@ -805,7 +946,7 @@ func (ip *Interp) runClosure(fn *ssa.Function, args []any, binds []any, depth in
 				var clBinds []any
 				if sc == nil && x.Call.IsInvoke() && len(args) > 0 {
 					// interface method call on an abstract object: the concrete method
-					if st, isSt := args[0].(*iStruct); isSt {
+					if st, isSt := args[0].(*iStruct); isSt && st.typ != nil {
 						if sel := ip.m.Prog.MethodSets.MethodSet(types.NewPointer(st.typ)).Lookup(x.Call.Method.Pkg(), x.Call.Method.Name()); sel != nil {
 							sc = ip.m.Prog.MethodValue(sel)
 						}
@@ -840,6 +981,11 @@ func (ip *Interp) runClosure(fn *ssa.Function, args []any, binds []any, depth in
 			case *ssa.If:
 				c, ok := get(x.Cond)
 				cc, isC := c.(constant.Value)
+				if sym, isSym := c.(iSym); ok && isSym && ip.branch != nil {
+					if taken, decided := ip.branch(sym, x); decided {
+						cc, isC = constant.MakeBool(taken), true
+					}
+				}
 				if !ok || !isC || cc.Kind() != constant.Bool {
 					ip.dirty = true
 					if ip.stuck == "" {
@@ -994,6 +1140,12 @@ func foldAny(op token.Token, l, r any) (any, bool) {
 	if isL && isR {
 		v, ok := foldBinOp(op, lc, rc)
 		return v, ok
+	}
+	// operations on named unknowns build expressions
+	_, symL := l.(iSym)
+	_, symR := r.(iSym)
+	if (symL && (symR || isR)) || (symR && isL) {
+		return iSym{op: op, x: l, y: r}, true
 	}
 	if op != token.EQL && op != token.NEQ {
 		return nil, false
